@@ -40,8 +40,7 @@ EXHAUSTIVE = {'quick': False, 'thorough': False}
 ASSUMPTIONS = [
     "binary<->decimal conversion of Python floats ('%f' % v, float(text)) is not modelled: a double read from a "
     "six-decimal numeral prints as that numeral (validated on the sampled doubles of every run)",
-    'files are written and read in the UTF-8 locale of the check; carriage returns are outside the value alphabet '
-    '(text-mode reading of the file routes translates them)',
+    'files are written and read in the UTF-8 locale of the check',
     "CPython's limit of 4300 digits for int<->str conversion is outside the model (integers stay below it)",
     'links are compared through navigation on both link directions; the key-matching join itself is the subject of C03',
 ]
